@@ -8,10 +8,17 @@
 // scope name/version/attributes/dropped count, scope schema URL and, for metrics, name, unit,
 // description, type, temporality, monotonicity and the metadata map.
 //
+// A fill (specs/Batcher/PayloadFill.tla, masks computed by TLC) says which elements are NOT given
+// content but left at their protobuf defaults: items (no attributes, hence no "id": anonymous),
+// metrics (no descriptor; without data points not even a type: an empty Metric entry), scopes,
+// resources.  Their encodings are empty or minimal.
+//
 // project() walks a payload as found (input before Consume, output inside the sink) and returns,
 // for every item, its id and a context digest: a hash of the canonical rendering of everything
 // that encloses the item plus the item's own content.  The digest is what the TLA+ monitor
 // compares (it is an opaque tag there); ctxDict maps digests back to the rendering for messages.
+// An anonymous item is projected with id -1 and a class (digest of everything but the metric
+// descriptor); anonPool gives it the id of an indistinguishable item that entered.
 package main
 
 import (
@@ -35,6 +42,112 @@ type shape [][][]int
 type item struct {
 	ID  int    `json:"id"`
 	Ctx string `json:"c"`
+	// anonymous item (no "id" attribute, no sample value): it can be counted, not tracked
+	anon  bool
+	class string // digest of resource, scope, (metric type) and the item's own content: all but the metric descriptor
+}
+
+// fill: which elements are left at their defaults (PayloadFill!Mask); nil = none
+type fill struct {
+	Item     []bool     `json:"item"`
+	Metric   [][][]bool `json:"metric"`
+	Scope    [][]bool   `json:"scope"`
+	Resource []bool     `json:"resource"`
+}
+
+func (f *fill) item(j int) bool { return f != nil && j >= 1 && j <= len(f.Item) && f.Item[j-1] }
+func (f *fill) metric(ri, si, mi int) bool {
+	return f != nil && ri < len(f.Metric) && si < len(f.Metric[ri]) && mi < len(f.Metric[ri][si]) && f.Metric[ri][si][mi]
+}
+func (f *fill) scope(ri, si int) bool {
+	return f != nil && ri < len(f.Scope) && si < len(f.Scope[ri]) && f.Scope[ri][si]
+}
+func (f *fill) resource(ri int) bool { return f != nil && ri < len(f.Resource) && f.Resource[ri] }
+
+// number gives the anonymous items of a request that was just built the ids their flat positions stand for
+// (base + j, what an ordinary item at that position carries in its "id" attribute)
+func number(items []item, base int) []item {
+	for i := range items {
+		if items[i].ID == -1 {
+			items[i].ID = base + i + 1
+			items[i].anon = true
+		}
+	}
+	return items
+}
+
+// anonPool pairs anonymous items that leave with anonymous items that entered (one pool per script, used under the
+// recorder's mutex in the order of the recorded events): an item that leaves gets the id of the first item that
+// entered with exactly the same context digest and has not left yet -- such items are indistinguishable, any pairing
+// among them is as good as any other.  If there is none, the first one of its class (same resource, scope, metric
+// type and content: differs in the metric descriptor only) that has not left yet, so that the monitor's Identity
+// clause reports the pair.  If there is none either, an id nobody entered (Conservation reports it).
+type anonPool struct {
+	exact map[string][]int
+	class map[string][]int
+	left  map[int]bool
+	fresh int
+}
+
+func (p *anonPool) enter(items []item) {
+	if p.exact == nil {
+		p.exact, p.class, p.left = map[string][]int{}, map[string][]int{}, map[int]bool{}
+	}
+	for _, it := range items {
+		if it.anon {
+			p.exact[it.Ctx] = append(p.exact[it.Ctx], it.ID)
+			p.class[it.class] = append(p.class[it.class], it.ID)
+		}
+	}
+}
+
+func (p *anonPool) take(m map[string][]int, key string) (int, bool) {
+	q := m[key]
+	for len(q) > 0 && p.left[q[0]] {
+		q = q[1:]
+	}
+	if len(q) == 0 {
+		delete(m, key)
+		return 0, false
+	}
+	m[key] = q[1:]
+	return q[0], true
+}
+
+func (p *anonPool) leave(items []item) {
+	if p.exact == nil {
+		p.exact, p.class, p.left = map[string][]int{}, map[string][]int{}, map[int]bool{}
+	}
+	for i := range items {
+		if items[i].ID != -1 {
+			continue
+		}
+		id, ok := p.take(p.exact, items[i].Ctx)
+		if !ok {
+			id, ok = p.take(p.class, items[i].class)
+		}
+		if !ok {
+			p.fresh++
+			id = 990000 + p.fresh
+		}
+		p.left[id] = true
+		items[i].ID = id
+		items[i].anon = true
+	}
+}
+
+func classOf(canon string) string {
+	h := sha1.Sum([]byte(canon))
+	return hex.EncodeToString(h[:8])
+}
+
+// anonymous items get their class, identified ones do not need it
+func mkItem(id int, canon, classCanon string) item {
+	it := item{ID: id, Ctx: digest(canon)}
+	if id == -1 {
+		it.class = classOf(classCanon)
+	}
+	return it
 }
 
 var (
@@ -106,23 +219,30 @@ func itemID(m pcommon.Map) int {
 
 // ---------------------------------------------------------------- logs
 
-func buildLogs(base int, tag string, sh shape, big map[int]bool) plog.Logs {
+func buildLogs(base int, tag string, sh shape, big map[int]bool, f *fill) plog.Logs {
 	ld := plog.NewLogs()
 	j := 0
 	for ri, res := range sh {
 		rl := ld.ResourceLogs().AppendEmpty()
 		rtag := fmt.Sprintf("%s.%d", tag, ri+1)
-		fillResource(rl.Resource(), rtag, ri)
-		rl.SetSchemaUrl("https://schema/res/" + rtag)
+		if !f.resource(ri) {
+			fillResource(rl.Resource(), rtag, ri)
+			rl.SetSchemaUrl("https://schema/res/" + rtag)
+		}
 		for si, sc := range res {
 			sl := rl.ScopeLogs().AppendEmpty()
 			stag := fmt.Sprintf("%s.%d", rtag, si+1)
-			fillScope(sl.Scope(), stag, si)
-			sl.SetSchemaUrl("https://schema/scope/" + stag)
+			if !f.scope(ri, si) {
+				fillScope(sl.Scope(), stag, si)
+				sl.SetSchemaUrl("https://schema/scope/" + stag)
+			}
 			for _, n := range sc {
 				for x := 0; x < n; x++ {
 					j++
 					lr := sl.LogRecords().AppendEmpty()
+					if f.item(j) && !big[j] {
+						continue // a log record left at its defaults
+					}
 					lr.Attributes().PutInt("id", int64(base+j))
 					lr.Body().SetStr(fmt.Sprintf("log %d of %s", j, stag))
 					lr.SetTimestamp(baseTime(j))
@@ -151,7 +271,7 @@ func projectLogs(ld plog.Logs, tags *[]string) []item {
 				lr := sl.LogRecords().At(x)
 				ic := fmt.Sprintf("log{body=%q ts=%d sev=%d/%q attrs=%s}", lr.Body().AsString(), lr.Timestamp(),
 					lr.SeverityNumber(), lr.SeverityText(), rawMap(lr.Attributes()))
-				out = append(out, item{itemID(lr.Attributes()), digest(rc + " " + sc + " " + ic)})
+				out = append(out, mkItem(itemID(lr.Attributes()), rc+" "+sc+" "+ic, rc+" "+sc+" "+ic))
 			}
 		}
 	}
@@ -160,23 +280,30 @@ func projectLogs(ld plog.Logs, tags *[]string) []item {
 
 // ---------------------------------------------------------------- traces
 
-func buildTraces(base int, tag string, sh shape, big map[int]bool) ptrace.Traces {
+func buildTraces(base int, tag string, sh shape, big map[int]bool, f *fill) ptrace.Traces {
 	td := ptrace.NewTraces()
 	j := 0
 	for ri, res := range sh {
 		rs := td.ResourceSpans().AppendEmpty()
 		rtag := fmt.Sprintf("%s.%d", tag, ri+1)
-		fillResource(rs.Resource(), rtag, ri)
-		rs.SetSchemaUrl("https://schema/res/" + rtag)
+		if !f.resource(ri) {
+			fillResource(rs.Resource(), rtag, ri)
+			rs.SetSchemaUrl("https://schema/res/" + rtag)
+		}
 		for si, sc := range res {
 			ss := rs.ScopeSpans().AppendEmpty()
 			stag := fmt.Sprintf("%s.%d", rtag, si+1)
-			fillScope(ss.Scope(), stag, si)
-			ss.SetSchemaUrl("https://schema/scope/" + stag)
+			if !f.scope(ri, si) {
+				fillScope(ss.Scope(), stag, si)
+				ss.SetSchemaUrl("https://schema/scope/" + stag)
+			}
 			for _, n := range sc {
 				for x := 0; x < n; x++ {
 					j++
 					sp := ss.Spans().AppendEmpty()
+					if f.item(j) && !big[j] {
+						continue // a span left at its defaults
+					}
 					sp.Attributes().PutInt("id", int64(base+j))
 					sp.SetName(fmt.Sprintf("span %d of %s", j, stag))
 					sp.SetTraceID(pcommon.TraceID([16]byte{1, 2, 3, byte(j), byte(base), byte(base >> 8)}))
@@ -208,7 +335,7 @@ func projectTraces(td ptrace.Traces, tags *[]string) []item {
 				sp := ss.Spans().At(x)
 				ic := fmt.Sprintf("span{name=%q trace=%s span=%s kind=%d start=%d end=%d events=%d attrs=%s}", sp.Name(),
 					sp.TraceID(), sp.SpanID(), sp.Kind(), sp.StartTimestamp(), sp.EndTimestamp(), sp.Events().Len(), rawMap(sp.Attributes()))
-				out = append(out, item{itemID(sp.Attributes()), digest(rc + " " + sc + " " + ic)})
+				out = append(out, mkItem(itemID(sp.Attributes()), rc+" "+sc+" "+ic, rc+" "+sc+" "+ic))
 			}
 		}
 	}
@@ -219,46 +346,73 @@ func projectTraces(td ptrace.Traces, tags *[]string) []item {
 
 // metric kinds cycle with the metric's position so that every type / temporality / monotonicity
 // combination is split sooner or later
-func fillMetric(m pmetric.Metric, mtag string, kind int, n int, base int, j *int, big map[int]bool) {
-	m.SetName("metric-" + mtag)
-	m.SetUnit(fmt.Sprintf("unit%d", kind))
-	m.SetDescription("description of " + mtag)
-	m.Metadata().PutStr("mk", mtag)
-	m.Metadata().PutInt("kind", int64(kind))
-	next := func(attrs pcommon.Map) int {
+//
+// bare: the metric is left at its defaults -- without data points it stays an empty Metric entry (no name, no type);
+// with data points it gets its type and a one-letter name, nothing else.  dflt(j): the j-th item of the request is
+// left at its defaults (next reports that, the data point is appended and not touched).
+func fillMetric(m pmetric.Metric, mtag string, kind int, n int, base int, j *int, big map[int]bool, bare bool, dflt func(int) bool) {
+	if bare && n == 0 {
+		return
+	}
+	if bare {
+		m.SetName("m")
+	} else {
+		m.SetName("metric-" + mtag)
+		m.SetUnit(fmt.Sprintf("unit%d", kind))
+		m.SetDescription("description of " + mtag)
+		m.Metadata().PutStr("mk", mtag)
+		m.Metadata().PutInt("kind", int64(kind))
+	}
+	next := func(attrs pcommon.Map) (int, bool) {
 		*j++
+		if dflt(*j) && !big[*j] {
+			return *j, false
+		}
 		attrs.PutInt("id", int64(base+*j))
 		if big[*j] {
 			attrs.PutStr("pad", padding)
 		}
-		return *j
+		return *j, true
 	}
 	switch kind % 6 {
 	case 0:
 		g := m.SetEmptyGauge()
 		for x := 0; x < n; x++ {
 			dp := g.DataPoints().AppendEmpty()
-			v := next(dp.Attributes())
+			v, set := next(dp.Attributes())
+			if !set {
+				continue
+			}
 			dp.SetIntValue(int64(v))
 			dp.SetTimestamp(baseTime(v))
 		}
 	case 1:
 		s := m.SetEmptySum()
-		s.SetAggregationTemporality(pmetric.AggregationTemporalityCumulative)
-		s.SetIsMonotonic(true)
+		if !bare {
+			s.SetAggregationTemporality(pmetric.AggregationTemporalityCumulative)
+			s.SetIsMonotonic(true)
+		}
 		for x := 0; x < n; x++ {
 			dp := s.DataPoints().AppendEmpty()
-			v := next(dp.Attributes())
+			v, set := next(dp.Attributes())
+			if !set {
+				continue
+			}
 			dp.SetDoubleValue(float64(v) + 0.5)
 			dp.SetStartTimestamp(baseTime(0))
 			dp.SetTimestamp(baseTime(v))
 		}
 	case 2:
 		h := m.SetEmptyHistogram()
-		h.SetAggregationTemporality(pmetric.AggregationTemporalityDelta)
+		if !bare {
+			h.SetAggregationTemporality(pmetric.AggregationTemporalityDelta)
+		}
 		for x := 0; x < n; x++ {
 			dp := h.DataPoints().AppendEmpty()
-			v := next(dp.Attributes())
+			v, set := next(dp.Attributes())
+			if !set {
+				continue
+			}
 			dp.SetCount(uint64(v))
 			dp.SetSum(float64(v))
 			dp.ExplicitBounds().FromRaw([]float64{1, 2})
@@ -267,10 +421,15 @@ func fillMetric(m pmetric.Metric, mtag string, kind int, n int, base int, j *int
 		}
 	case 3:
 		h := m.SetEmptyExponentialHistogram()
-		h.SetAggregationTemporality(pmetric.AggregationTemporalityCumulative)
+		if !bare {
+			h.SetAggregationTemporality(pmetric.AggregationTemporalityCumulative)
+		}
 		for x := 0; x < n; x++ {
 			dp := h.DataPoints().AppendEmpty()
-			v := next(dp.Attributes())
+			v, set := next(dp.Attributes())
+			if !set {
+				continue
+			}
 			dp.SetCount(uint64(v))
 			dp.SetScale(int32(v % 3))
 			dp.SetZeroCount(uint64(v))
@@ -280,7 +439,10 @@ func fillMetric(m pmetric.Metric, mtag string, kind int, n int, base int, j *int
 		s := m.SetEmptySummary()
 		for x := 0; x < n; x++ {
 			dp := s.DataPoints().AppendEmpty()
-			v := next(dp.Attributes())
+			v, set := next(dp.Attributes())
+			if !set {
+				continue
+			}
 			dp.SetCount(uint64(v))
 			dp.SetSum(float64(v))
 			q := dp.QuantileValues().AppendEmpty()
@@ -290,33 +452,42 @@ func fillMetric(m pmetric.Metric, mtag string, kind int, n int, base int, j *int
 		}
 	case 5:
 		s := m.SetEmptySum()
-		s.SetAggregationTemporality(pmetric.AggregationTemporalityDelta)
-		s.SetIsMonotonic(false)
+		if !bare {
+			s.SetAggregationTemporality(pmetric.AggregationTemporalityDelta)
+			s.SetIsMonotonic(false)
+		}
 		for x := 0; x < n; x++ {
 			dp := s.DataPoints().AppendEmpty()
-			v := next(dp.Attributes())
+			v, set := next(dp.Attributes())
+			if !set {
+				continue
+			}
 			dp.SetIntValue(int64(-v))
 			dp.SetTimestamp(baseTime(v))
 		}
 	}
 }
 
-func buildMetrics(base int, tag string, sh shape, big map[int]bool) pmetric.Metrics {
+func buildMetrics(base int, tag string, sh shape, big map[int]bool, f *fill) pmetric.Metrics {
 	md := pmetric.NewMetrics()
 	j := 0
 	for ri, res := range sh {
 		rm := md.ResourceMetrics().AppendEmpty()
 		rtag := fmt.Sprintf("%s.%d", tag, ri+1)
-		fillResource(rm.Resource(), rtag, ri)
-		rm.SetSchemaUrl("https://schema/res/" + rtag)
+		if !f.resource(ri) {
+			fillResource(rm.Resource(), rtag, ri)
+			rm.SetSchemaUrl("https://schema/res/" + rtag)
+		}
 		for si, sc := range res {
 			sm := rm.ScopeMetrics().AppendEmpty()
 			stag := fmt.Sprintf("%s.%d", rtag, si+1)
-			fillScope(sm.Scope(), stag, si)
-			sm.SetSchemaUrl("https://schema/scope/" + stag)
+			if !f.scope(ri, si) {
+				fillScope(sm.Scope(), stag, si)
+				sm.SetSchemaUrl("https://schema/scope/" + stag)
+			}
 			for mi, n := range sc {
 				mtag := fmt.Sprintf("%s.%d", stag, mi+1)
-				fillMetric(sm.Metrics().AppendEmpty(), mtag, base/1000+ri+si+mi, n, base, &j, big)
+				fillMetric(sm.Metrics().AppendEmpty(), mtag, base/1000+ri+si+mi, n, base, &j, big, f.metric(ri, si, mi), f.item)
 			}
 		}
 	}
@@ -366,14 +537,17 @@ func projectMetrics(md pmetric.Metrics, tags *[]string) []item {
 			sc := canonScope(sm.Scope(), sm.SchemaUrl())
 			for x := 0; x < sm.Metrics().Len(); x++ {
 				m := sm.Metrics().At(x)
-				if tags != nil && m.Name() == "" && metricPoints(m) == 0 {
-					// an unnamed metric without data points: not something the driver ever builds, it is the shell an
-					// extraction leaves in a part when no data point fitted
+				if tags != nil && m.Name() == "" && m.Type() != pmetric.MetricTypeEmpty && metricPoints(m) == 0 {
+					// an unnamed metric that has a type and no data points: not something the driver ever builds (its
+					// metrics are named, or are empty entries without a type), it is the shell an extraction leaves in
+					// a part when no data point fitted
 					*tags = append(*tags, shellTag)
 				}
 				pre := rc + " " + sc + " " + canonMetric(m) + " "
+				cpre := rc + " " + sc + " type=" + m.Type().String() + " "
 				add := func(attrs pcommon.Map, content string) {
-					out = append(out, item{itemID(attrs), digest(pre + "point{" + content + " attrs=" + rawMap(attrs) + "}")})
+					pt := "point{" + content + " attrs=" + rawMap(attrs) + "}"
+					out = append(out, mkItem(itemID(attrs), pre+pt, cpre+pt))
 				}
 				switch m.Type() {
 				case pmetric.MetricTypeGauge:
@@ -413,30 +587,39 @@ func projectMetrics(md pmetric.Metrics, tags *[]string) []item {
 // The metric level of a shape becomes a Profile (a container with its own identity); the items are
 // its samples.  A sample has no attribute map: its id is its first value.
 
-func buildProfiles(base int, tag string, sh shape, big map[int]bool) pprofile.Profiles {
+func buildProfiles(base int, tag string, sh shape, big map[int]bool, f *fill) pprofile.Profiles {
 	pd := pprofile.NewProfiles()
 	j := 0
 	for ri, res := range sh {
 		rp := pd.ResourceProfiles().AppendEmpty()
 		rtag := fmt.Sprintf("%s.%d", tag, ri+1)
-		fillResource(rp.Resource(), rtag, ri)
-		rp.SetSchemaUrl("https://schema/res/" + rtag)
+		if !f.resource(ri) {
+			fillResource(rp.Resource(), rtag, ri)
+			rp.SetSchemaUrl("https://schema/res/" + rtag)
+		}
 		for si, sc := range res {
 			sp := rp.ScopeProfiles().AppendEmpty()
 			stag := fmt.Sprintf("%s.%d", rtag, si+1)
-			fillScope(sp.Scope(), stag, si)
-			sp.SetSchemaUrl("https://schema/scope/" + stag)
+			if !f.scope(ri, si) {
+				fillScope(sp.Scope(), stag, si)
+				sp.SetSchemaUrl("https://schema/scope/" + stag)
+			}
 			for mi, n := range sc {
 				p := sp.Profiles().AppendEmpty()
-				p.SetProfileID(pprofile.ProfileID([16]byte{7, byte(ri), byte(si), byte(mi), byte(base / 1000), byte(base / 256000)}))
-				p.SetTime(baseTime(mi))
-				p.SetPeriod(int64(10 + mi))
-				p.SetOriginalPayloadFormat(fmt.Sprintf("fmt-%s.%d", stag, mi+1))
-				p.SetDroppedAttributesCount(uint32(mi + 3))
-				p.StringTable().Append("", "cpu", "ns")
+				if !f.metric(ri, si, mi) { // otherwise: a profile left at its defaults
+					p.SetProfileID(pprofile.ProfileID([16]byte{7, byte(ri), byte(si), byte(mi), byte(base / 1000), byte(base / 256000)}))
+					p.SetTime(baseTime(mi))
+					p.SetPeriod(int64(10 + mi))
+					p.SetOriginalPayloadFormat(fmt.Sprintf("fmt-%s.%d", stag, mi+1))
+					p.SetDroppedAttributesCount(uint32(mi + 3))
+					p.StringTable().Append("", "cpu", "ns")
+				}
 				for x := 0; x < n; x++ {
 					j++
 					s := p.Sample().AppendEmpty()
+					if f.item(j) && !big[j] {
+						continue // a sample left at its defaults: no value, hence no id
+					}
 					s.Value().Append(int64(base+j), int64(j))
 					s.TimestampsUnixNano().Append(uint64(1700000000 + j))
 					s.SetLocationsLength(int32(j % 3))
@@ -472,7 +655,7 @@ func projectProfiles(pd pprofile.Profiles, tags *[]string) []item {
 						id = int(s.Value().At(0))
 					}
 					ic := fmt.Sprintf("sample{values=%v ts=%d loclen=%d}", s.Value().AsRaw(), s.TimestampsUnixNano().Len(), s.LocationsLength())
-					out = append(out, item{id, digest(rc + " " + sc + " " + pc + " " + ic)})
+					out = append(out, mkItem(id, rc+" "+sc+" "+pc+" "+ic, rc+" "+sc+" "+pc+" "+ic))
 				}
 			}
 		}
